@@ -127,8 +127,29 @@ def make_value(kind, shape, data):
     raise ValueError(kind)
 
 
+SCRIPTED = "c07-scripted"
+
+
 class Boom(Exception):
     pass
+
+
+class C07Base(BaseException):
+    """a BaseException that is not an Exception (like KeyboardInterrupt / SystemExit)"""
+
+
+# script codes of evaluations ended by a BaseException that is NOT an Exception: `finally` must
+# still restore, `except Exception` fallbacks are not taken.  All are `interrupt` ("i") in the model.
+INTERRUPTS = {"k": KeyboardInterrupt, "x": SystemExit, "e": GeneratorExit, "B": C07Base}
+
+
+def scripted_exc(code, k):
+    cls = Boom if code == "r" else INTERRUPTS[code]
+    return cls(SCRIPTED, f"scripted failure at evaluation {k + 1}")
+
+
+def is_scripted(e):
+    return bool(getattr(e, "args", None)) and e.args[0] == SCRIPTED
 
 
 # --------------------------------------------------------------------------- the real run
@@ -193,8 +214,8 @@ def run_real(case):
         state["log"].append(observe(x))
         oc = script[k] if k < len(script) else "s"
         state["cur"] = oc
-        if oc == "r":
-            raise Boom(f"scripted failure at evaluation {k + 1}")
+        if oc == "r" or oc in INTERRUPTS:
+            raise scripted_exc(oc, k)
         return 1 if oc == "u" else 0
 
     def sq(v):
@@ -267,10 +288,9 @@ def run_real(case):
         klong(expr)
         outcome = "ok"
     except BaseException as e:  # noqa
-        if isinstance(e, (KeyboardInterrupt, SystemExit)):
-            raise
+        if not isinstance(e, Exception) and not is_scripted(e):
+            raise               # a genuine interrupt of the harness, not one of the scripted faults
         outcome = "exc"
-        exc_name = type(e).__name__
     s1 = snapshot()
     depth1 = len(klong._context._context)
     ftag = f"{case['backend']}:{form}"
@@ -319,7 +339,8 @@ def _cell_str(c):
 
 
 def model_line(case, variant, selfbind=False):
-    script = ",".join(("u1" if selfbind else "u0") if o == "u" else o for o in case["script"])
+    script = ",".join(("u1" if selfbind else "u0") if o == "u" else "i" if o in INTERRUPTS else o
+                      for o in case["script"])
     store = ",".join(f"{n}:{r}" for n, r in case["store"])
     heap = "|".join(_cell_str(c) for c in case["heap"])
     watch = ",".join(n for n, _ in case["store"])
@@ -359,8 +380,8 @@ def run_literal(case):
             st["seen"].append(view(x))
             k = len(st["seen"]) - 1
             oc = st["script"][k] if k < len(st["script"]) else "s"
-            if oc == "r":
-                raise Boom("scripted")
+            if oc == "r" or oc in INTERRUPTS:
+                raise scripted_exc(oc, k)
             if oc == "v":
                 return x * 1
             return (x * x).sum()
@@ -372,8 +393,9 @@ def run_literal(case):
         st["script"], st["seen"] = list(script), []
         try:
             klong(expr)
-        except Exception:
-            pass
+        except BaseException as e:  # noqa
+            if not isinstance(e, Exception) and not is_scripted(e):
+                raise
         return list(st["seen"])
 
     k1 = fresh()
@@ -448,17 +470,22 @@ def systematic_cases(backends, thorough):
             multi = form in ("mgrad", "mjac")
             for pk, pc in cells.items():
                 size = len(pc[2])
-                for mode in "srvpu":
+                for mode in "srvpukxeB":
                     for k in range(0, 2 * size + 3 + (2 if multi else 0)):
                         if mode == "s" and k > 0:
+                            continue
+                        if mode in "xeB" and k > 1:      # KeyboardInterrupt at every k, the other classes at k <= 1
                             continue
                         c = dict(kind="grad", backend=be, form=form, params=["w", "b"] if multi else ["w"],
                                  store=[["w", 0], ["b", 1], ["c", 2], ["a", 0]],
                                  heap=[pc, ["pyfloat", [], [M // 4]], ["f64", [2], [5 * M, 6 * M]]],
                                  script=["s"] * k + [mode])
                         yield c
-                        if k <= 1 and mode in "sru":
+                        if k <= 1 and mode in "sruk":
                             yield dict(c, body="tmp")
+
+
+DEVIATIONS = "rrvvppuukkxeB"
 
 
 def random_case(rng, backends, thorough):
@@ -492,11 +519,11 @@ def random_case(rng, backends, thorough):
     n = n_probes(case) if UNKP not in case["params"] else 3
     style = rng.random()
     if style < 0.35:                      # a single deviation at a random evaluation
-        script = ["s"] * rng.randrange(0, n + 1) + [rng.choice("rvpu")]
+        script = ["s"] * rng.randrange(0, n + 1) + [rng.choice(DEVIATIONS)]
     elif style < 0.45:                    # no deviation
         script = []
     else:                                 # several deviations
-        script = ["s" if rng.random() < 0.8 else rng.choice("rvpu") for _ in range(rng.randrange(0, n + 2))]
+        script = ["s" if rng.random() < 0.8 else rng.choice(DEVIATIONS) for _ in range(rng.randrange(0, n + 2))]
     case["script"] = script
     return case
 
@@ -582,7 +609,7 @@ def literal_cases(backends):
         for form in ("grad", "nabla"):
             for data in ([M, 2 * M, 3 * M], [M // 2, -M]):
                 for k in range(0, 2 * len(data)):
-                    for mode in "rv":
+                    for mode in "rvkx":
                         yield dict(kind="literal", backend=be, form=form, data=data, script=["s"] * k + [mode])
 
 
@@ -614,6 +641,22 @@ def _diff(m, d):
 
 
 def run_case(ctx, drv, case):
+    """every exception out of the real code or out of the decoding of what it produced becomes an
+    oracle failure with the case as replay (never an infrastructure error)"""
+    try:
+        return _run_case(ctx, drv, case)
+    except common.Infra:
+        raise
+    except Exception as e:
+        import traceback
+        tb = traceback.format_exc().strip().split("\n")[-6:]
+        ctx.oracle_fail(f"c07:{case.get('backend')}:{case.get('form')}:case-does-not-run", case,
+                        "the gradient expression runs and the state can be read back",
+                        f"{type(e).__name__}: {e}", " | ".join(tb))
+        return dict(problems=[("case-does-not-run",)], expr="?", outcome="?", calls=0)
+
+
+def _run_case(ctx, drv, case):
     case = normalize(case)
     if case.get("kind") == "source":
         r = run_source(case)
@@ -647,7 +690,8 @@ def run_case(ctx, drv, case):
     ctx.bump("evaluations:" + ("0" if r["calls"] == 0 else "1" if r["calls"] == 1 else "2-5" if r["calls"] <= 5 else "6+"))
     first = next((o for o in case["script"][:r["calls"]] if o != "s"), "none")
     ctx.bump("first-deviation:" + {"r": "raise", "v": "non-scalar", "p": "plain-number", "u": "unknown-name",
-                                   "none": "none"}[first])
+                                   "k": "KeyboardInterrupt", "x": "SystemExit", "e": "GeneratorExit",
+                                   "B": "custom-BaseException", "none": "none"}[first])
     if r["identity_changed"]:
         ctx.bump("rebound-to-an-equal-but-different-object")
     if case.get("fn_unknown"):
